@@ -24,8 +24,8 @@ CONSTANTS Keys, Fams
 None == "none"
 Tr == ndJsonDeserialize(IOEnv.TRACE_FILE)
 
-VARIABLES l, table, want, eors, touched, up, bad
-ovars == <<l, table, want, eors, touched, up, bad>>
+VARIABLES l, table, want, eors, touched, up, bad, cfgr, apir   \* cfgr / apir: configured and API-announced routes (want = their merge)
+ovars == <<l, table, want, eors, touched, up, bad, cfgr, apir>>
 E == Tr[l]
 Empty == [k \in Keys |-> None]
 SetOf(s) == {s[i] : i \in 1..Len(s)}
@@ -35,18 +35,23 @@ Note(v) == bad' = IF v = {} THEN bad ELSE Append(bad, [tid |-> E.tid, line |-> l
 
 Step ==
     /\ l <= Len(Tr) /\ l' = l + 1
+    /\ (E.e \notin {"Begin", "op", "reload"} => UNCHANGED <<cfgr, apir>>)
     /\ CASE E.e = "Begin" ->
-              /\ table' = Empty /\ want' = E.cache /\ eors' = {} /\ touched' = {} /\ up' = FALSE /\ bad' = bad
+              /\ table' = Empty /\ want' = E.cfg /\ eors' = {} /\ touched' = {} /\ up' = FALSE /\ bad' = bad
+              /\ cfgr' = E.cfg /\ apir' = Empty
          [] E.e = "up" ->
               /\ table' = Empty /\ eors' = {} /\ touched' = {} /\ up' = TRUE /\ UNCHANGED want
-              /\ Note(Chk("C11-S5-adj-rib-out-differs-from-intent", E.cache = want))
+              /\ bad' = bad      \* (the reported Adj-RIB-Out is judged at operator calls, End-of-RIB and quiescence: a reload that
+                                 \*  re-establishes the session only applies the route difference once the new session starts)
          [] E.e = "down" ->
               /\ table' = Empty /\ eors' = {} /\ touched' = {} /\ up' = FALSE /\ UNCHANGED want /\ bad' = bad
          [] E.e = "op" ->
               /\ want' = IF E.name = "Announce" THEN [want EXCEPT ![E.k] = E.a] ELSE [want EXCEPT ![E.k] = None]
+              /\ apir' = IF E.name = "Announce" THEN [apir EXCEPT ![E.k] = E.a] ELSE [apir EXCEPT ![E.k] = None]
+              /\ cfgr' = IF E.name = "Announce" THEN cfgr ELSE [cfgr EXCEPT ![E.k] = None]
               /\ touched' = touched \cup {E.k}
               /\ UNCHANGED <<table, eors, up>>
-              /\ Note(Chk("C11-S5-adj-rib-out-differs-from-intent", E.cache = want'))
+              /\ Note(Chk("C11-S5-adj-rib-out-differs-from-intent", E.hascache => E.cache = want'))
          [] E.e = "upd" ->
               /\ table' = [k \in Keys |->
                              IF \E i \in 1..Len(E.ann) : E.ann[i][1] = k
@@ -62,15 +67,30 @@ Step ==
               /\ Note(Chk("C11-S2-end-of-rib-for-a-family-not-negotiated", E.fam \in Fams)
                       \cup Chk("C11-S2-end-of-rib-sent-twice", E.fam \notin eors)
                       \cup Chk("C11-S1-end-of-rib-before-the-adj-rib-out-was-readvertised",
-                               \A k \in Keys : k \notin touched => table[k] = E.cache[k]))
+                               \A k \in Keys : k \notin touched => table[k] = (IF E.hascache THEN E.cache[k] ELSE want[k])))
+         [] E.e = "reload" ->
+              \* C17: a successful reload makes the intent "new configuration + API routes still announced"; a failed one
+              \* changes nothing: neighbours, reported Adj-RIB-Out and queue are what they were (E.before = the projection
+              \* taken just before the reload, E.cache / E.pending / E.same just after)
+              /\ cfgr' = IF E.ok THEN E.new ELSE cfgr
+              /\ apir' = apir
+              /\ want' = IF E.ok THEN [k \in Keys |-> IF apir[k] # None THEN apir[k] ELSE E.new[k]] ELSE want
+              /\ touched' = IF E.ok THEN touched \cup {k \in Keys : E.new[k] # cfgr[k]} ELSE touched
+              /\ UNCHANGED <<table, eors, up>>
+              /\ Note((IF E.ok THEN Chk("C17-reload-of-a-valid-configuration-refused", E.result)
+                       ELSE Chk("C17-reload-of-a-broken-configuration-accepted", ~E.result)
+                            \cup Chk("C17-failed-reload-changed-the-adj-rib-out", E.cache = E.before)
+                            \cup Chk("C17-failed-reload-queued-routes", E.pending = E.pendingBefore)
+                            \cup Chk("C17-failed-reload-changed-the-neighbours", E.same)))
          [] E.e = "quiet" ->
               /\ UNCHANGED <<table, want, eors, touched, up>>
               /\ Note(Chk("C11-S3-end-of-rib-missing-for-a-negotiated-family", up => eors = Fams)
-                      \cup Chk("C11-S3-peer-table-differs-from-adj-rib-out-after-resync", up => table = E.cache)
-                      \cup Chk("C11-S5-adj-rib-out-differs-from-intent", E.cache = want))
+                      \cup Chk("C11-S3-peer-table-differs-from-adj-rib-out-after-resync", (up /\ E.hascache) => table = E.cache)
+                      \cup Chk("C11-S3-peer-table-differs-from-the-intended-table", up => table = want)
+                      \cup Chk("C11-S5-adj-rib-out-differs-from-intent", E.hascache => E.cache = want))
          [] OTHER -> UNCHANGED <<table, want, eors, touched, up>> /\ bad' = bad
 
-OInit == l = 1 /\ table = Empty /\ want = Empty /\ eors = {} /\ touched = {} /\ up = FALSE /\ bad = <<>>
+OInit == l = 1 /\ table = Empty /\ want = Empty /\ eors = {} /\ touched = {} /\ up = FALSE /\ bad = <<>> /\ cfgr = Empty /\ apir = Empty
 ObsSpec == OInit /\ [][Step]_ovars
 Report == (l = Len(Tr) + 1) => PrintT(<<"VERIF", "verdict", Len(Tr), ToJsonArray(bad)>>)
 =============================================================================
